@@ -12,7 +12,6 @@ import (
 	"github.com/launchdarkly/go-sdk-common/v3/ldattr"
 	"github.com/launchdarkly/go-sdk-common/v3/ldcontext"
 	"github.com/launchdarkly/go-sdk-common/v3/ldvalue"
-	"github.com/launchdarkly/go-semver"
 	"github.com/launchdarkly/go-server-sdk-evaluation/v3/ldmodel"
 )
 
@@ -198,9 +197,19 @@ var semverOverflowProbes = [][2]string{
 	{"1.9223372036854775808.0", "1.1.0"},
 }
 
+var errNotSemver = fmt.Errorf("not a semantic version")
+
 func semverCase(a, b, class string) *microCase {
-	va, ea := semver.ParseAs(a, semver.ParseModeAllowMissingMinorAndPatch)
-	vb, eb := semver.ParseAs(b, semver.ParseModeAllowMissingMinorAndPatch)
+	// through the library's own operand parser (ldmodel.parseSemVer: what the three semVer operators use on both sides)
+	va, oa := ldmodel.TypeConversions.ValueToSemanticVersion(ldvalue.String(a))
+	vb, ob := ldmodel.TypeConversions.ValueToSemanticVersion(ldvalue.String(b))
+	var ea, eb error
+	if !oa {
+		ea = errNotSemver
+	}
+	if !ob {
+		eb = errNotSemver
+	}
 	cmp := L()
 	if ea == nil && eb == nil {
 		cmp = L(AZ(int64(va.ComparePrecedence(vb))))
@@ -212,9 +221,9 @@ func semverCase(a, b, class string) *microCase {
 	sb, okb := specSemver(b)
 	switch {
 	case oka != (ea == nil):
-		desc["predicate_failed"] = fmt.Sprintf("semver: %q accepted=%v by go-semver, but valid by the SemVer 2.0 grammar (minor/patch optional)=%v", a, ea == nil, oka)
+		desc["predicate_failed"] = fmt.Sprintf("semver: %q accepted=%v by ValueToSemanticVersion, but valid by the SemVer 2.0 grammar (minor/patch optional)=%v", a, ea == nil, oka)
 	case okb != (eb == nil):
-		desc["predicate_failed"] = fmt.Sprintf("semver: %q accepted=%v by go-semver, but valid by the SemVer 2.0 grammar (minor/patch optional)=%v", b, eb == nil, okb)
+		desc["predicate_failed"] = fmt.Sprintf("semver: %q accepted=%v by ValueToSemanticVersion, but valid by the SemVer 2.0 grammar (minor/patch optional)=%v", b, eb == nil, okb)
 	case oka && okb && specSemverCmp(sa, sb) != va.ComparePrecedence(vb):
 		desc["predicate_failed"] = fmt.Sprintf("semver: precedence of %q against %q is %d by SemVer 2.0 item 11, the library says %d", a, b, specSemverCmp(sa, sb), va.ComparePrecedence(vb))
 		desc["finding_key"] = "semver-precedence:" + a + ":" + b
@@ -336,6 +345,9 @@ func renderInstant(r *Rng) (string, bool) {
 	h, mi, s := r.Intn(24), r.Intn(60), r.Intn(60)
 	if r.P(0.05) {
 		s = 60
+		if r.P(0.5) { // the leap second proper: the instant is the next day's midnight
+			h, mi = 23, 59
+		}
 	}
 	str := fmt.Sprintf("%04d-%02d-%02d", year, month, day)
 	tl := "T"
